@@ -16,7 +16,8 @@ from __future__ import annotations
 import ast
 import re
 
-from ..loader import AnalysisError, dotted, norm, walk_no_nested
+from ..flow import Defs, Scope, cond, guards, iterations, nnf, rejections
+from ..loader import AnalysisError, FuncInfo, dotted, norm, walk_no_nested
 from ..report import Ctx
 from ..selftest import Mutant
 
@@ -37,56 +38,90 @@ DECLINED = [
 ]
 
 
-def _consts(node: ast.AST) -> list[str]:
-    return [c.value for c in ast.walk(node) if isinstance(c, ast.Constant) and isinstance(c.value, str)]
+def _consts(nodes) -> list[str]:
+    return [c.value for n in nodes for c in ast.walk(n) if isinstance(c, ast.Constant) and isinstance(c.value, str)]
 
 
-def check(ctx: Ctx) -> None:  # noqa: C901, PLR0912, PLR0915
+def _scope_nodes(ctx: Ctx, fn: FuncInfo) -> list[ast.AST]:
+    """The function, the private helpers it uses, and the module-level constants they name."""
+    sc = Scope(ctx, fn)
+    nodes: list[ast.AST] = [f.node for f in sc.funcs]
+    mod = ctx.prog.module(MOD)
+    for _f, n in sc.walk():
+        if isinstance(n, ast.Name) and n.id in mod.assigns:
+            nodes.append(mod.assigns[n.id])
+    # public module functions called by name (the parser helpers are private, _parse_*, but be generous)
+    for _f, c in sc.calls(*[name for name in ("_parse_indexed_arrays", "_parse_index_string")]):
+        pass
+    return nodes
+
+
+def _join_separators(nodes) -> set[str]:
+    return {c.func.value.value for n in nodes for c in ast.walk(n) if isinstance(c, ast.Call) and isinstance(c.func, ast.Attribute) and c.func.attr == "join"
+            and isinstance(c.func.value, ast.Constant) and isinstance(c.func.value.value, str)}
+
+
+def _split_args(nodes) -> set[str]:
+    return {c.args[0].value for n in nodes for c in ast.walk(n) if isinstance(c, ast.Call) and isinstance(c.func, ast.Attribute) and c.func.attr == "split" and c.args
+            and isinstance(c.args[0], ast.Constant) and isinstance(c.args[0].value, str)}
+
+
+def rule_tokens(ctx: Ctx) -> None:  # noqa: C901
     P = ctx.prog
-    ms = P.cls(f"{MOD}.MapSpec")
-    asp = P.cls(f"{MOD}.ArraySpec")
+    ms, asp = P.cls(f"{MOD}.MapSpec"), P.cls(f"{MOD}.ArraySpec")
+    a_str, m_str, frm = asp.methods["__str__"], ms.methods["__str__"], ms.methods["from_string"]
+    pr_a, pr_m, ps = _scope_nodes(ctx, a_str), _scope_nodes(ctx, m_str), _scope_nodes(ctx, frm)
+    joins, splits = _join_separators(pr_a), _split_args(ps)
+    ctx.tri("1-tokens", a_str, a_str.node, bool(joins) and bool(splits) and {j.strip() for j in joins} <= splits, bool(joins) and bool(splits) and not ({j.strip() for j in joins} & splits),
+            "indices are joined with ', ' and split on ',' (+strip)", f"the printer joins indices with {sorted(joins)} but the parser splits on {sorted(splits)}: from_string(str(m)) fails or differs", "index separator not recognised", key="comma")
+    stripped = any(isinstance(c, ast.Call) and isinstance(c.func, ast.Attribute) and c.func.attr == "strip" for n in ps for c in ast.walk(n))
+    ctx.tri("1-tokens", frm, frm.node, stripped, False, "split parts are stripped (the printer emits ', ')", "", "no .strip() in the parser", key="strip")
+    for tok, what in ((":", "a reduced axis (None)"), ("...", "no inputs"), ("[", "the index list")):
+        in_print = any(tok == c or (tok in c and tok in ("[",)) for c in _consts(pr_a + pr_m))
+        in_parse = any(tok == c or (tok == "[" and "\\[" in c) for c in _consts(ps))
+        ctx.tri("1-tokens", frm, frm.node, in_print and in_parse, in_print != in_parse, f"`{tok}` ({what}) is printed and understood by the parser",
+                f"`{tok}` ({what}) is {'printed but never looked for by the parser' if in_print else 'expected by the parser but never printed'}: the printed form does not parse back to an equal MapSpec", key=f"token {tok}")
+    arrow_p = any(c.strip() == "->" for c in _consts(pr_m))
+    arrow_s = "->" in {x.strip() for x in _split_args(ps)} or any("->" in c for c in _consts(ps))
+    ctx.tri("1-tokens", frm, frm.node, arrow_p and arrow_s, arrow_p != arrow_s, "'->' printed and split on", "printer and parser disagree on the '->' separator", key="arrow")
+    pats = [c for c in _consts(ps) if "\\[" in c]
+    if pats:
+        try:
+            rx = re.compile(pats[0])
+            ok = rx.groups == 2 and rx.findall("x.a[i, :], b_1[j]") == [("x.a", "i, :"), ("b_1", "j")]
+        except re.error:
+            ok = False
+        ctx.add("1-tokens", frm, frm.node, ok, "array pattern has groups (name incl. scope, indices) and matches the printed form" if ok else f"array pattern `{pats[0]}` does not capture (scoped name, indices) of the printed form `x.a[i, :], b_1[j]`", key="array-pattern")
+    else:
+        ctx.add("1-tokens", frm, frm.node, None, "UNDECIDED: array regex not found", key="array-pattern")
+    # printing order: inputs before outputs
+    d = Defs(m_str)
+    for r in [r for r in walk_no_nested(m_str.node) if isinstance(r, ast.Return) and r.value is not None]:
+        if isinstance(r.value, ast.JoinedStr):
+            vals = [norm(d.resolve(v.value)) for v in r.value.values if isinstance(v, ast.FormattedValue)]
+            defs_all = {nm: " ".join(norm(x.value) for x in ast.walk(m_str.node) if isinstance(x, ast.Assign) and any(isinstance(t, ast.Name) and t.id == nm for t in x.targets)) for nm in vals}
+            sides = ["in" if "self.inputs" in (v + defs_all.get(v, "")) else ("out" if "self.outputs" in (v + defs_all.get(v, "")) else "?") for v in vals]
+            ctx.tri("1-tokens", m_str, r, sides == ["in", "out"], sides == ["out", "in"], "MapSpec prints `inputs -> outputs`", "MapSpec.__str__ prints the outputs before the inputs", f"printed parts {sides} not recognised", key="order-print")
+    # from_string: left of '->' becomes inputs, right becomes outputs
+    fd = Defs(frm)
+    halves = [s_ for s_ in walk_no_nested(frm.node) if isinstance(s_, ast.Assign) and isinstance(s_.targets[0], ast.Tuple) and len(s_.targets[0].elts) == 2 and "split" in norm(s_.value)]
+    ctor = [c for c in ast.walk(frm.node) if isinstance(c, ast.Call) and norm(c.func) in ("cls", "MapSpec") and len(c.args) >= 2]
+    if halves and ctor:
+        left, right = (norm(e) for e in halves[0].targets[0].elts)
+        a0, a1 = norm(fd.resolve(ctor[0].args[0])), norm(fd.resolve(ctor[0].args[1]))
+        has = lambda t, nm: re.search(rf"\b{re.escape(nm)}\b", t) is not None  # noqa: E731
+        ctx.tri("1-tokens", frm, ctor[0], has(a0, left) and has(a1, right) and not has(a0, right), has(a0, right) and has(a1, left),
+                "from_string builds (inputs, outputs) from the left/right side of '->'", "from_string passes the right-hand side as inputs and the left-hand side as outputs", key="sides")
+    else:
+        ctx.add("1-tokens", frm, frm.node, None, "UNDECIDED: split into two halves / constructor call not recognised", key="sides")
 
-    # ------------------------------------------------------------ 1 tokens
-    a_str, m_str = asp.methods["__str__"], ms.methods["__str__"]
-    frm = ms.methods["from_string"]
-    pia = P.func(f"{MOD}._parse_indexed_arrays")
-    pis = P.func(f"{MOD}._parse_index_string")
-    printed_a = _consts(a_str.node)
-    printed_m = _consts(m_str.node)
-    ok = any(c == ", " for c in printed_a) and any("[" in c for c in printed_a) and any("]" in c for c in printed_a)
-    ctx.add("1-tokens", a_str, a_str.node, ok, "ArraySpec prints name[i, j]" if ok else "ArraySpec.__str__ no longer prints `name[` + ', '.join + `]`", key="array-print")
-    ok = ":" in printed_a and any(isinstance(n, ast.IfExp) and "is None" in norm(n.test) and norm(n.body) == "':'" for n in ast.walk(a_str.node))
-    ctx.add("1-tokens", a_str, a_str.node, ok, "a reduced axis (None) prints as ':'" if ok else "None axes are not printed as ':'", key="colon-print")
-    ok = any(isinstance(n, ast.IfExp) and norm(n.body) == "None" and "':'" in norm(n.test) and "==" in norm(n.test) or (isinstance(n, ast.IfExp) and norm(n.orelse) == "None" and "!= ':'" in norm(n.test)) for n in ast.walk(pis.node))
-    ctx.add("1-tokens", pis, pis.node, ok, "':' parses back to None" if ok else "the index parser does not map ':' to None", key="colon-parse")
-    ok = any(c.strip() == "->" for c in printed_m) and any(c == "->" for c in _consts(frm.node))
-    ctx.add("1-tokens", frm, frm.node, ok, "'->' printed and split on" if ok else "printer and parser disagree on the '->' separator", key="arrow")
-    ok = "..." in printed_m and "..." in _consts(pia.node)
-    ctx.add("1-tokens", pia, pia.node, ok, "'...' for no inputs printed and parsed" if ok else "printer and parser disagree on '...'", key="ellipsis")
-    split_comma = any(isinstance(c, ast.Call) and isinstance(c.func, ast.Attribute) and c.func.attr == "split" and c.args and norm(c.args[0]) == "','" for c in ast.walk(pis.node))
-    stripped = any(isinstance(c, ast.Call) and isinstance(c.func, ast.Attribute) and c.func.attr == "strip" for c in ast.walk(pis.node))
-    ctx.add("1-tokens", pis, pis.node, split_comma and stripped, "indices split on ',' and stripped (printer joins with ', ')" if split_comma and stripped else "index strings are not split on ',' + strip", key="comma")
-    pats = [c for c in _consts(pia.node) if "\\[" in c]
-    if not pats:
-        raise AnalysisError("array regex not found in _parse_indexed_arrays")
-    try:
-        rx = re.compile(pats[0])
-        ok = rx.groups == 2 and rx.findall("x.a[i, :], b_1[j]") == [("x.a", "i, :"), ("b_1", "j")]
-    except re.error:
-        ok = False
-    ctx.add("1-tokens", pia, pia.node, ok, "array pattern has groups (name incl. scope, indices) and matches the printed form" if ok else "array pattern no longer captures (scoped name, indices) of the printed form", key="array-pattern")
-    ok = "inputs" in norm(m_str.node) and "outputs" in norm(m_str.node) and m_str.node.body and "f'{inputs} -> {outputs}'" in norm(m_str.node.body[-1])
-    ctx.add("1-tokens", m_str, m_str.node, bool(ok), "MapSpec prints `inputs -> outputs`" if ok else "MapSpec.__str__ no longer prints inputs before outputs", key="order-print")
-    ctor = [c for c in ast.walk(frm.node) if isinstance(c, ast.Call) and norm(c.func) == "cls"]
-    ok = bool(ctor) and [norm(a) for a in ctor[0].args] == ["inputs", "outputs"]
-    parse_in = any(isinstance(s, ast.Assign) and norm(s.targets[0]) == "inputs" and "in_" in norm(s.value) for s in walk_no_nested(frm.node))
-    ctx.add("1-tokens", frm, ctor[0] if ctor else frm.node, ok and parse_in, "from_string builds cls(inputs, outputs) from the left/right side" if ok and parse_in else "from_string swaps or drops the two sides", key="sides")
 
-    # ------------------------------------------------------------ 2 eq-fields
-    for cls, built_by in ((ms, ["inputs", "outputs"]), (asp, ["name", "axes"])):
+def rule_eq_fields(ctx: Ctx) -> None:
+    P = ctx.prog
+    for cls, built_by in ((P.cls(f"{MOD}.MapSpec"), ["inputs", "outputs"]), (P.cls(f"{MOD}.ArraySpec"), ["name", "axes"])):
         kw = cls.dataclass_kwargs
         if kw is None:
-            raise AnalysisError(f"{cls.qualname} is not a dataclass")
+            raise AnalysisError(f"{cls.qualname} is not a dataclass", fatal=True)
         for fname, ann in cls.fields.items():
             compared = True
             if ann.value is not None and isinstance(ann.value, ast.Call) and dotted(ann.value.func) in ("field", "dataclasses.field"):
@@ -99,135 +134,214 @@ def check(ctx: Ctx) -> None:  # noqa: C901, PLR0912, PLR0915
                     f"`{fname}` takes part in == but is not carried by the string form: from_string(str(m)) != m", key=f"field {fname}")
         ctx.add("2-eq-fields", cls.qualname, cls.loc, kw.get("frozen") is True, "frozen" if kw.get("frozen") is True else "no longer frozen", key="frozen")
 
-    # ------------------------------------------------------------ 3 all-outputs
+
+def rule_all_outputs(ctx: Ctx) -> None:
+    P = ctx.prog
+    ms, asp = P.cls(f"{MOD}.MapSpec"), P.cls(f"{MOD}.ArraySpec")
     post = ms.methods["__post_init__"]
-    ifs = [s for s in post.node.body if isinstance(s, ast.If)]
-    none_checks = [s for s in ifs if "is None" in norm(s.test) and "axes" in norm(s.test)]
-    ok = bool(none_checks) and any(isinstance(g, ast.comprehension) and norm(g.iter) == "self.outputs" for g in ast.walk(none_checks[0].test)) and any(isinstance(x, ast.Raise) for x in none_checks[0].body)
-    ctx.add("3-all-outputs", post, none_checks[0] if none_checks else post.node, ok, "':' is rejected in every output" if ok else "':' (None axis) is only rejected in the first output", key="none-in-outputs")
-    same = [s for s in ifs if "indices" in norm(s.test) and "self.outputs[1:]" in norm(s.test)]
-    ok = False
-    detail = "outputs are not required to have identical indices"
-    if same:
-        cmp_ = [c for c in ast.walk(same[0].test) if isinstance(c, ast.Compare)]
-        wrapped = any(isinstance(c, ast.Call) and dotted(c.func) in ("set", "frozenset", "sorted", "len") for x in cmp_ for c in ast.walk(x))
-        eq = all(len(c.ops) == 1 and isinstance(c.ops[0], (ast.Eq, ast.NotEq)) for c in cmp_) and bool(cmp_)
-        ok = eq and not wrapped and any(isinstance(x, ast.Raise) for x in same[0].body)
-        detail = "index tuples compared with order" if ok else "output indices are compared as sets/sorted: outputs with permuted indices are accepted although shape/output_key use outputs[0] only"
-    ctx.add("3-all-outputs", post, same[0] if same else post.node, ok, detail, key="identical-indices")
-    unused = [s for s in ifs if "unused_indices" in norm(s.test) or ("input_indices" in norm(s.test) and "output_indices" in norm(s.test))]
-    ok = bool(unused) and "input_indices - output_indices" in norm(unused[0].test) and any(isinstance(x, ast.Raise) for x in unused[0].body)
-    ctx.add("3-all-outputs", post, unused[0] if unused else post.node, ok, "input indices absent from the output are rejected" if ok else "an input index that does not appear in the output is no longer rejected", key="unused-indices")
+    rej = [r for r in rejections(ctx.cfg(post), post.node, Defs(post)) if not r["dead"]]
+    # ':' in outputs
+    none_rej = [r for r in rej if any(re.fullmatch(r"\w+ is None", c) for c in r["conds"][-1:])]
+    whole = [r for r in none_rej if any(norm(i) == "self.outputs" for _t, i in r["iters"])]
+    first_only = [r for r in none_rej if any("self.outputs[0]" in norm(i) for _t, i in r["iters"])]
+    ctx.tri("3-all-outputs", post, (first_only or whole or [{"node": post.node}])[0]["node"], bool(whole), bool(first_only) and not whole or not none_rej,
+            "':' is rejected in every output", "':' (None axis) is only rejected in the first output" if first_only else "':' (None axis) in an output is not rejected", key="none-in-outputs")
+    same = [r for r in rej if any(".indices" in c and ("!=" in c) for c in r["conds"][-1:])]
+    loose = [r for r in rej if any(".indices" in c and any(w in c for w in ("set(", "sorted(", "len(", "frozenset(")) for c in r["conds"][-1:])]
+    strict = [r for r in same if r not in loose]
+    ctx.tri("3-all-outputs", post, (loose or strict or [{"node": post.node}])[0]["node"], bool(strict), bool(loose),
+            "index tuples of all outputs are compared with order", "output indices are compared as sets/sorted/lengths: outputs with permuted indices are accepted although shape/output_key use outputs[0] only",
+            "comparison of the outputs' indices not recognised", key="identical-indices")
+    unused = [r for r in rej if any(" - " in c and "indices" in c for c in r["conds"][-1:]) or any("unused" in c for c in r["conds"][-1:])]
+    ctx.tri("3-all-outputs", post, (unused or [{"node": post.node}])[0]["node"], bool(unused), False, "input indices absent from the output are rejected", "", "rejection of unused input indices not recognised", key="unused-indices")
     apost = asp.methods["__post_init__"]
     n_ident = sum(1 for c in ast.walk(apost.node) if isinstance(c, ast.Call) and isinstance(c.func, ast.Attribute) and c.func.attr == "isidentifier")
-    n_raise = sum(1 for c in ast.walk(apost.node) if isinstance(c, ast.Raise))
-    ok = n_ident >= 4 and n_raise >= 3
-    ctx.add("3-all-outputs", apost, apost.node, ok, "names, scopes and index names must be identifiers" if ok else "identifier validation of names / indices was weakened", key="identifiers")
+    n_raise = len([r for r in rejections(ctx.cfg(apost), apost.node) if not r["dead"]])
+    ctx.tri("3-all-outputs", apost, apost.node, n_ident >= 4 and n_raise >= 3, n_ident == 0 or n_raise == 0, "names, scopes and index names must be identifiers", "identifier validation of names / indices is gone", f"{n_ident} isidentifier() tests, {n_raise} rejections", key="identifiers")
 
-    # ------------------------------------------------------------ 5 shape-path
+
+def _strip_bool(e: ast.AST) -> ast.AST:
+    while isinstance(e, ast.Call) and dotted(e.func) == "bool" and len(e.args) == 1:
+        e = e.args[0]
+    return e
+
+
+def rule_shape_path(ctx: Ctx) -> None:  # noqa: C901, PLR0915
+    P = ctx.prog
+    ms, asp = P.cls(f"{MOD}.MapSpec"), P.cls(f"{MOD}.ArraySpec")
     shape = ms.methods["shape"]
     cfg = ctx.cfg(shape)
-    from ..cfg import ENTRY, EXIT
-
-    val = set(cfg.nodes(lambda s: any(isinstance(c, ast.Call) and dotted(c.func) == "_validate_shapes" for c in ast.walk(s) if not isinstance(s, (ast.For, ast.If)))))
+    d = Defs(shape)
+    val = set(cfg.nodes(lambda s: not isinstance(s, (ast.For, ast.If)) and any(isinstance(c, ast.Call) and dotted(c.func) == "_validate_shapes" for c in ast.walk(s))))
     loops = cfg.nodes(lambda s: isinstance(s, ast.For))
-    ok = bool(val) and bool(loops) and all(cfg.dominates(v, lp) for v in val for lp in loops)
-    ctx.add("5-shape-path", shape, shape.node, ok, "ranks are validated before any dimension is read" if ok else "MapSpec.shape reads dimensions without validating ranks first", key="validate-first")
+    if loops:
+        ok = bool(val) and all(any(cfg.dominates(v, lp) for v in val) for lp in loops)
+        ctx.tri("5-shape-path", shape, shape.node, ok, not val, "ranks are validated before any dimension is read", "MapSpec.shape reads dimensions without calling _validate_shapes first: a shape of the wrong rank is indexed silently",
+                "_validate_shapes does not dominate the loop", key="validate-first")
     vs = P.func(f"{MOD}._validate_shapes")
-    ok = sum(1 for x in ast.walk(vs.node) if isinstance(x, ast.Raise)) >= 3 and any(isinstance(c, ast.Call) and isinstance(c.func, ast.Attribute) and c.func.attr == "validate" for c in ast.walk(vs.node))
-    ctx.add("5-shape-path", vs, vs.node, ok, "extra / missing inputs and wrong ranks raise" if ok else "_validate_shapes lost a rejection", key="validate-raises")
+    n_r = len([r for r in rejections(ctx.cfg(vs), vs.node) if not r["dead"]])
+    calls_validate = any(isinstance(c, ast.Call) and isinstance(c.func, ast.Attribute) and c.func.attr == "validate" for c in ast.walk(vs.node))
+    ctx.tri("5-shape-path", vs, vs.node, n_r >= 3 and calls_validate, n_r == 0, "extra / missing inputs and wrong ranks raise", "_validate_shapes never raises", f"{n_r} rejections", key="validate-raises")
     av = asp.methods["validate"]
-    ok = "len(shape) != self.rank" in norm(av.node) and any(isinstance(x, ast.Raise) for x in ast.walk(av.node))
-    ctx.add("5-shape-path", av, av.node, ok, "rank mismatch raises" if ok else "ArraySpec.validate no longer compares len(shape) with the rank", key="rank-check")
+    rj = [r for r in rejections(ctx.cfg(av), av.node, Defs(av)) if not r["dead"]]
+    rank_rej = [r for r in rj if any("len(shape)" in c and "rank" in c for c in r["conds"])]
+    ctx.tri("5-shape-path", av, av.node, bool(rank_rej), not rj, "rank mismatch raises", "ArraySpec.validate never raises: shapes of the wrong rank pass", "rank comparison not recognised", key="rank-check")
     rk = asp.methods["rank"]
-    ok = norm(rk.node.body[-1]) == "return len(self.axes)"
-    ctx.add("5-shape-path", rk, rk.node, ok, "rank counts ':' axes too" if ok else "rank is no longer len(axes)", key="rank-def")
-    loop = [s for s in walk_no_nested(shape.node) if isinstance(s, ast.For)][0]
-    ok = norm(loop.iter) in ("output.axes", "self.outputs[0].axes", "output.indices") and any(isinstance(c, ast.Call) and dotted(c.func) == "_get_common_dim" for c in ast.walk(loop)) \
-        and any(isinstance(c, ast.Call) and dotted(c.func) == "_get_output_dim" for c in ast.walk(loop))
-    ctx.add("5-shape-path", shape, loop, ok, "one dimension per output axis: common dim of the inputs sharing it, else the internal shape" if ok else "MapSpec.shape no longer derives each output axis from _get_common_dim / _get_output_dim", key="per-axis")
-    rel = [s for s in ast.walk(loop) if isinstance(s, ast.Assign) and norm(s.targets[0]) == "relevant_arrays"]
-    ok = bool(rel) and "for x in self.inputs if index in x.indices" in norm(rel[0].value)
-    ctx.add("5-shape-path", shape, rel[0] if rel else loop, ok, "every input sharing the index takes part in the dimension check" if ok else "not every input that shares an index is compared", key="relevant-arrays")
-    masks = [norm(c) for c in ast.walk(loop) if isinstance(c, ast.Call) and isinstance(c.func, ast.Attribute) and norm(c.func) == "mask.append"]
-    ok = masks == ["mask.append(True)", "mask.append(False)"]
-    ctx.add("5-shape-path", shape, loop, ok, "mask is True for mapped axes, False for internal ones" if ok else "shape mask polarity changed", key="mask-polarity")
+    rt = " ".join(norm(Defs(rk).resolve(r.value)) for r in walk_no_nested(rk.node) if isinstance(r, ast.Return) and r.value is not None)
+    ctx.tri("5-shape-path", rk, rk.node, "len(self.axes)" in rt, "self.indices" in rt, "rank counts ':' axes too", "rank is computed from `.indices`, which omits ':' axes: shapes of arrays with a reduced axis are rejected / mis-indexed", f"rank = `{rt[:50]}`", key="rank-def")
+    # mask polarity: an axis is marked True exactly when its dimension comes from the inputs
+    ext_nodes = cfg.nodes(lambda s: not isinstance(s, (ast.For, ast.If)) and any(isinstance(c, ast.Call) and dotted(c.func) == "_get_common_dim" for c in ast.walk(s)))
+    appends = cfg.nodes(lambda s: isinstance(s, ast.Expr) and isinstance(s.value, ast.Call) and isinstance(s.value.func, ast.Attribute) and s.value.func.attr == "append" and "mask" in norm(s.value.func.value))
+    if ext_nodes and appends:
+        eg = [(t, p) for t, p in guards(cfg, d, ext_nodes[0])]
+        verdicts = []
+        for a in appends:
+            v = cfg.stmt[a].value.args[0]
+            if isinstance(v, ast.Constant) and isinstance(v.value, bool):
+                ag = guards(cfg, d, a)
+                shared = [(t, p, dict(eg).get(t)) for t, p in ag if t in dict(eg)]
+                if shared:
+                    t, p, pe = shared[-1]
+                    verdicts.append(v.value == (p == pe))
+                else:
+                    verdicts.append(None)
+            else:
+                vt, vp = cond(_strip_bool(d.resolve(v)))
+                match = [(t, p) for t, p in eg if cond(_strip_bool(ast.parse(t, mode="eval").body))[0] == vt]
+                verdicts.append((vp == match[-1][1]) if match else None)
+        ctx.tri("5-shape-path", shape, cfg.stmt[appends[0]], all(v is True for v in verdicts), any(v is False for v in verdicts),
+                "mask is True for mapped axes, False for internal ones", "the shape mask marks an axis whose dimension comes from the inputs as internal (or the reverse): external/internal index spaces are swapped everywhere downstream",
+                "mask construction not recognised", key="mask-polarity")
+    else:
+        ctx.add("5-shape-path", shape, shape.node, None, "UNDECIDED: _get_common_dim call / mask.append not found", key="mask-polarity")
     gcd = P.func(f"{MOD}._get_common_dim")
-    ok = any(isinstance(x, ast.Raise) for x in ast.walk(gcd.node)) and any(isinstance(c, ast.Compare) and isinstance(c.ops[0], ast.NotEq) for c in ast.walk(gcd.node))
-    ctx.add("5-shape-path", gcd, gcd.node, ok, "zipped dimension mismatch raises" if ok else "_get_common_dim no longer rejects unequal zipped dimensions", key="common-dim-raises")
+    rj = [r for r in rejections(ctx.cfg(gcd), gcd.node, Defs(gcd)) if not r["dead"]]
+    ne = [r for r in rj if any("!=" in c for c in r["conds"])]
+    ctx.tri("5-shape-path", gcd, gcd.node, bool(ne), not rj, "zipped dimension mismatch raises", "_get_common_dim never raises: unequal zipped dimensions are accepted", "mismatch test not recognised", key="common-dim-raises")
     # positions used to subscript a shape must come from `.axes`
     n_pos = 0
     for fn in P.functions_in(MOD):
-        for sub in [s for s in walk_no_nested(fn.node) if isinstance(s, ast.Subscript)]:
-            base = ast.unparse(sub.value)
-            if "shape" not in base.lower() or not isinstance(sub.slice, ast.Name):
-                continue
-            pos = sub.slice.id
-            defs = [a for a in walk_no_nested(fn.node) if isinstance(a, ast.Assign) and norm(a.targets[0]) == pos and ".index(" in norm(a.value)]
-            for d in defs:
+        fd = Defs(fn)
+        for sub in [s_ for s_ in walk_no_nested(fn.node) if isinstance(s_, ast.Subscript) and "shape" in ast.unparse(s_.value).lower()]:
+            srcs = []
+            if isinstance(sub.slice, ast.Name):
+                srcs = [a.value for a in walk_no_nested(fn.node) if isinstance(a, ast.Assign) and any(isinstance(t, ast.Name) and t.id == sub.slice.id for t in a.targets)]
+            elif isinstance(sub.slice, ast.Call):
+                srcs = [sub.slice]
+            for v in srcs:
+                t = norm(fd.resolve(v))
+                if ".index(" not in t:
+                    continue
                 n_pos += 1
-                src = norm(d.value)
-                ok = ".axes.index(" in src
-                ctx.add("5-shape-path", fn, d, ok, "axis position for a shape lookup comes from `.axes`" if ok else
-                        f"`{src}`: the position is taken from the ':'-stripped `.indices` but subscripts a full-rank shape - wrong axis whenever ':' precedes the index", key=f"pos {pos}")
+                ctx.tri("5-shape-path", fn, sub, ".axes.index(" in t, ".indices.index(" in t, "axis position for a shape lookup comes from `.axes`",
+                        f"`{t[:60]}`: the position is taken from the ':'-stripped `.indices` but subscripts a full-rank shape - wrong axis whenever ':' precedes the index", key=f"pos {fn.name}")
     ctx.floor("5-shape-path.positions", n_pos, 1)
 
-    # ------------------------------------------------------------ 6 one-key
-    ok_fn = {}
+
+def _arith_roles(fn: FuncInfo) -> dict[str, str]:
+    """Names bound (by zip) to elements of the strides / of the shape in _shape_to_key."""
+    d = Defs(fn)
+    shape_p = fn.param_names()[0]
+    roles: dict[str, str] = {}
+    for it in iterations(fn.node):
+        src = d.resolve(it["iter"])
+        if isinstance(src, ast.Call) and dotted(src.func) == "zip" and isinstance(it["target"], ast.Tuple) and len(src.args) == len(it["target"].elts):
+            for tgt, a in zip(it["target"].elts, src.args):
+                t = norm(d.resolve(a))
+                roles[norm(tgt)] = "stride" if "strides" in t else ("dim" if t == shape_p else "?")
+    return roles
+
+
+def rule_one_key(ctx: Ctx) -> None:  # noqa: C901, PLR0915
+    P = ctx.prog
+    ms, asp = P.cls(f"{MOD}.MapSpec"), P.cls(f"{MOD}.ArraySpec")
+    DECOMPOSERS = {"_shape_to_key", "unravel_index", "divmod"}
+    used = {}
     for name in ("output_key", "input_keys"):
         f = ms.methods[name]
-        calls = [c for c in ast.walk(f.node) if isinstance(c, ast.Call) and dotted(c.func) == "_shape_to_key"]
-        ok = len(calls) == 1 and [norm(a) for a in calls[0].args] == ["shape", "linear_index"]
-        ok_fn[name] = ok
-        ctx.add("6-one-key", f, calls[0] if calls else f.node, ok, f"{name} decomposes the linear index with _shape_to_key(shape, linear_index)" if ok else f"{name} does not use _shape_to_key(shape, linear_index)", key=f"{name} uses _shape_to_key")
-        rank = [s for s in f.node.body if isinstance(s, ast.If) and "len(shape)" in norm(s.test) and any(isinstance(x, ast.Raise) for x in s.body)]
-        ctx.add("6-one-key", f, rank[0] if rank else f.node, bool(rank), f"{name} rejects a shape of the wrong rank" if rank else f"{name} no longer checks the rank of `shape`", key=f"{name} rank")
+        used[name] = {_l(dotted(c.func)) for _f, c in Scope(ctx, f, depth=1).calls(*DECOMPOSERS) if _f is f}
+        rj = [r for r in rejections(ctx.cfg(f), f.node, Defs(f)) if not r["dead"]]
+        rank = [r for r in rj if any("len(shape)" in c for c in r["conds"])]
+        ctx.tri("6-one-key", f, f.node, bool(rank), not rj, f"{name} rejects a shape of the wrong rank", f"{name} never raises: a shape of the wrong rank is decomposed silently", "rank test not recognised", key=f"{name} rank")
+    same = used["output_key"] == used["input_keys"] == {"_shape_to_key"}
+    ctx.tri("6-one-key", ms.methods["input_keys"], ms.methods["input_keys"].node, same, bool(used["output_key"]) and bool(used["input_keys"]) and used["output_key"] != used["input_keys"],
+            "output_key and input_keys decompose the linear index with the same function (_shape_to_key)",
+            f"output_key decomposes the linear index with {sorted(used['output_key'])} but input_keys with {sorted(used['input_keys'])}: the element written and the inputs read can belong to different positions", key="same-decomposition")
     ik = ms.methods["input_keys"]
-    ids = [s for s in walk_no_nested(ik.node) if isinstance(s, ast.Assign) and norm(s.targets[0]) == "ids"]
-    ok = bool(ids) and norm(ids[0].value) == "dict(zip(self.external_indices, key))"
-    ctx.add("6-one-key", ik, ids[0] if ids else ik.node, ok, "index names are paired with the key positions" if ok else "input_keys no longer pairs external_indices with the key", key="ids")
-    ret = [r for r in walk_no_nested(ik.node) if isinstance(r, ast.Return)][-1]
-    ok = "slice(None) if ax is None else ids[ax] for ax in x.axes" in norm(ret) and "for x in self.inputs" in norm(ret)
-    ctx.add("6-one-key", ik, ret, ok, "each input axis: full slice for ':' else the index value, in the input's own axis order" if ok else "input key construction changed (':' / axis order)", key="input-key-build")
+    d = Defs(ik)
+    zips = [c for c in ast.walk(ik.node) if isinstance(c, ast.Call) and dotted(c.func) == "zip" and len(c.args) == 2 and "_shape_to_key" in norm(d.resolve(c.args[1]))]
+    if zips:
+        first = norm(d.resolve(zips[0].args[0]))
+        ctx.tri("6-one-key", ik, zips[0], first == "self.external_indices", first in ("self.input_indices", "self.output_indices") or "sorted(" in first,
+                "index names are paired with the key positions in external_indices order", f"the key positions are paired with `{first}`, not with self.external_indices (the order/selection of the key's positions)", f"key positions paired with `{first[:40]}`", key="ids")
+    else:
+        ctx.add("6-one-key", ik, ik.node, None, "UNDECIDED: pairing of index names with key positions not recognised", key="ids")
+    axes_iter = [it for it in iterations(ik.node) if re.fullmatch(r"\w+\.(axes|indices)", norm(it["iter"]))]
+    by_axes = [it for it in axes_iter if norm(it["iter"]).endswith(".axes")]
+    by_idx = [it for it in axes_iter if norm(it["iter"]).endswith(".indices")]
+    full = "slice(None)" in norm(ik.node)
+    ctx.tri("6-one-key", ik, (by_idx or by_axes or [{"node": ik.node}])[0]["node"], bool(by_axes) and full and not by_idx, bool(by_idx),
+            "each input axis: full slice for ':' else the index value, in the input's own axis order", "input keys are built from `.indices` (':' axes dropped): the key has the wrong rank for arrays with a reduced axis", "construction of the input keys not recognised", key="input-key-build")
     ext = ms.methods["external_indices"]
-    gens = [g for g in ast.walk(ext.node) if isinstance(g, ast.comprehension)]
-    src_ok = bool(gens) and norm(gens[0].iter) in ("self.output_indices", "self.outputs[0].indices", "self.outputs[0].axes")
-    filt_ok = bool(gens) and any("self.input_indices" in norm(i) for i in gens[0].ifs)
-    loops_ext = [s for s in walk_no_nested(ext.node) if isinstance(s, ast.For)]
-    ok = src_ok and filt_ok and not loops_ext
-    ctx.add("6-one-key", ext, ext.node, ok, "external_indices keeps OUTPUT-axis order (the order of the key positions)" if ok else
-            "external_indices is not ordered like the output axes: input_keys and output_key disagree about which index a key position denotes (e.g. 'x[i, j] -> z[j, i]')", key="external-order")
-    oi = ms.methods["output_indices"]
-    ok = norm(oi.node.body[-1]) == "return self.outputs[0].indices"
-    ctx.add("6-one-key", oi, oi.node, ok, "output_indices = indices of the first output" if ok else "output_indices changed", key="output-indices")
+    its = iterations(ext.node)
+    src = [norm(Defs(ext).resolve(it["iter"])) for it in its]
+    out_order = [t for t in src if t in ("self.output_indices", "self.outputs[0].indices", "self.outputs[0].axes")]
+    in_order = [t for t in src if "self.inputs" in t or "input_indices" in t]
+    ctx.tri("6-one-key", ext, ext.node, bool(out_order) and not in_order, bool(in_order) and not out_order, "external_indices keeps OUTPUT-axis order (the order of the key positions)",
+            "external_indices is enumerated in the order of the inputs, not of the output axes: input_keys and output_key disagree about which index a key position denotes (e.g. 'x[i, j] -> z[j, i]')",
+            f"iteration sources {src} not recognised", key="external-order")
     ai = asp.methods["indices"]
-    ok = norm(ai.node.body[-1]) == "return tuple((x for x in self.axes if x is not None))"
-    ctx.add("6-one-key", ai, ai.node, ok, "indices = axes without None, in order" if ok else "ArraySpec.indices no longer preserves axis order", key="indices-def")
+    t = norm(ai.node)
+    ctx.tri("6-one-key", ai, ai.node, "self.axes" in t and "is not None" in nnf_text(ai.node), any(w in t for w in ("sorted(", "set(")), "indices = axes without None, in order", "ArraySpec.indices reorders/deduplicates the axes", key="indices-def")
     stk = P.func(f"{MOD}._shape_to_key")
-    ret = [r for r in walk_no_nested(stk.node) if isinstance(r, ast.Return)][-1]
-    gen = next((g for g in ast.walk(ret) if isinstance(g, ast.GeneratorExp)), None)
-    ok = False
-    if gen is not None and isinstance(gen.elt, ast.BinOp) and isinstance(gen.elt.op, ast.Mod) and isinstance(gen.elt.left, ast.BinOp) and isinstance(gen.elt.left.op, ast.FloorDiv):
-        tgt = gen.generators[0].target
-        it = gen.generators[0].iter
-        if isinstance(tgt, ast.Tuple) and len(tgt.elts) == 2 and isinstance(it, ast.Call) and dotted(it.func) == "zip" and len(it.args) == 2:
-            s_name, d_name = norm(tgt.elts[0]), norm(tgt.elts[1])
-            ok = norm(gen.elt.left.left) == "linear_index" and norm(gen.elt.left.right) == s_name and norm(gen.elt.right) == d_name \
-                and norm(it.args[0]) == "shape_to_strides(shape)" and norm(it.args[1]) == "shape"
-    ctx.add("6-one-key", stk, ret, ok, "key[k] = (linear // stride_k) % dim_k over zip(strides(shape), shape)" if ok else "_shape_to_key is no longer (linear // stride) % dim over zip(shape_to_strides(shape), shape)", key="shape-to-key")
+    roles = _arith_roles(stk)
+    sd = Defs(stk)
+    verdicts = []
+    for b in [b for b in ast.walk(stk.node) if isinstance(b, ast.BinOp) and isinstance(b.op, ast.Mod)]:
+        left = sd.resolve(b.left)
+        if isinstance(left, ast.BinOp) and isinstance(left.op, ast.FloorDiv):
+            div, mod_ = roles.get(norm(left.right), "?"), roles.get(norm(b.right), "?")
+            verdicts.append((div, mod_))
+    good = bool(verdicts) and all(v == ("stride", "dim") for v in verdicts)
+    swapped = any(v[0] == "dim" or v[1] == "stride" for v in verdicts)
+    ctx.tri("6-one-key", stk, stk.node, good, swapped, "key[k] = (linear // stride_k) % dim_k over zip(strides(shape), shape)",
+            f"_shape_to_key divides/reduces by the wrong quantities {verdicts}: it must be (linear // stride) % dim", "arithmetic of _shape_to_key not recognised", key="shape-to-key")
     sts = P.func(f"{MOD}.shape_to_strides")
-    fors = [s for s in walk_no_nested(sts.node) if isinstance(s, ast.For)]
-    ok = len(fors) == 2 and norm(fors[0].iter) == "range(len(shape))" and norm(fors[1].iter) == "range(i + 1, len(shape))" and "product *= shape[j]" in norm(fors[1])
-    ctx.add("6-one-key", sts, fors[1] if len(fors) > 1 else sts.node, ok, "stride_i = product of the FOLLOWING dimensions (row-major)" if ok else "shape_to_strides is no longer the product over the following dimensions", key="row-major-strides")
+    ssd = Defs(sts)
+    outer = [it for it in iterations(sts.node) if it["kind"] == "loop" and isinstance(it["target"], ast.Name)]
+    ranges = []
+    for o in outer:
+        i = o["target"].id
+        for x in ast.walk(o["node"]):
+            if isinstance(x, ast.Call) and dotted(x.func) == "range" and len(x.args) >= 2 and x is not o["iter"]:
+                ranges.append((i, norm(ssd.resolve(x.args[0])).replace(" ", "")))
+            if isinstance(x, ast.Subscript) and isinstance(x.slice, ast.Slice) and x.slice.lower is not None:
+                ranges.append((i, norm(ssd.resolve(x.slice.lower)).replace(" ", "")))
+    following = [r for r in ranges if r[1] == f"{r[0]}+1"]
+    including = [r for r in ranges if r[1] == r[0]]
+    ctx.tri("6-one-key", sts, sts.node, bool(following) and not including, bool(including), "stride_i = product of the FOLLOWING dimensions (row-major)",
+            "the stride of an axis includes the axis' own dimension: keys are not the row-major coordinates", "stride computation not recognised", key="row-major-strides")
 
-    # ------------------------------------------------------------ 7 revalidate
+
+def _l(name: str) -> str:
+    return name.rsplit(".", 1)[-1]
+
+
+def nnf_text(node: ast.AST) -> str:
+    return " ".join(nnf(i) for n in ast.walk(node) if isinstance(n, ast.comprehension) for i in n.ifs) + " ".join(nnf(n.test) for n in ast.walk(node) if isinstance(n, (ast.If, ast.IfExp)))
+
+
+def rule_revalidate(ctx: Ctx) -> None:
+    P = ctx.prog
+    ms, asp = P.cls(f"{MOD}.MapSpec"), P.cls(f"{MOD}.ArraySpec")
     for cls, names in ((ms, ("add_axes", "rename")), (asp, ("add_axes",))):
         for nm in names:
             f = cls.methods[nm]
+            d = Defs(f)
             for r in [r for r in walk_no_nested(f.node) if isinstance(r, ast.Return) and r.value is not None]:
-                t = norm(r.value)
-                ok = t.startswith(("MapSpec(", "ArraySpec(")) or t == "self"
-                ctx.add("7-revalidate", f, r, ok, "returns through the validating constructor" if ok else f"`{t[:50]}` bypasses the constructor", key=f"{nm} {t[:40]}")
+                t = norm(d.resolve(r.value))
+                ctx.tri("7-revalidate", f, r, t.startswith(("MapSpec(", "ArraySpec(", "type(self)(", "self.__class__(")) or t == "self", any(w in t for w in ("__new__", "copy.copy(", "replace(")),
+                        "returns through the validating constructor", f"`{t[:50]}` bypasses the constructor", f"return `{t[:40]}` not recognised", key=f"{cls.name}.{nm} returns")
     bypass = []
     for m in P.modules.values():
         for n in ast.walk(m.tree):
@@ -235,11 +349,21 @@ def check(ctx: Ctx) -> None:  # noqa: C901, PLR0912, PLR0915
                 bypass.append(f"{m.relpath}:{n.lineno}")
     ctx.add("7-revalidate", "pipefunc", "", not bypass, "no object.__setattr__/__new__ bypass anywhere in the package" if not bypass else f"constructor bypass at {bypass}", key="no-bypass")
     aa = asp.methods["add_axes"]
-    ok = any(isinstance(x, ast.Raise) for x in ast.walk(aa.node)) and "self.axes + axis" in norm(aa.node)
-    ctx.add("7-revalidate", aa, aa.node, ok, "add_axes appends and rejects duplicates" if ok else "ArraySpec.add_axes no longer appends at the end / rejects duplicate axes", key="add-axes")
+    t = norm(aa.node)
+    rj = [r for r in rejections(ctx.cfg(aa), aa.node) if not r["dead"]]
+    ctx.tri("7-revalidate", aa, aa.node, bool(rj) and "self.axes + " in t, "+ self.axes" in t and "self.axes + " not in t, "add_axes appends and rejects duplicates", "ArraySpec.add_axes prepends the new axes: existing axis positions shift", key="add-axes")
     rn = ms.methods["rename"]
-    ok = "ArraySpec(renames.get(spec.name, spec.name), spec.axes)" in norm(rn.node) and "map(_rename, self.inputs)" in norm(rn.node) and "map(_rename, self.outputs)" in norm(rn.node)
-    ctx.add("7-revalidate", rn, rn.node, ok, "rename maps names only, inputs and outputs alike, axes untouched" if ok else "rename changed (axes altered or a side not renamed)", key="rename")
+    sc = Scope(ctx, rn)
+    ctors = [c for _f, c in sc.calls("ArraySpec") if len(c.args) >= 2]
+    keeps_axes = [c for c in ctors if re.fullmatch(r"\w+\.axes", norm(c.args[1]))]
+    t = sc.text()
+    ctx.tri("7-revalidate", rn, rn.node, bool(keeps_axes) and "self.inputs" in t and "self.outputs" in t, bool(ctors) and not keeps_axes, "rename maps names only, inputs and outputs alike, axes untouched",
+            "rename rebuilds the arrays with altered axes", "rename not recognised", key="rename")
+
+
+def check(ctx: Ctx) -> None:
+    for rule in (rule_tokens, rule_eq_fields, rule_all_outputs, rule_shape_path, rule_one_key, rule_revalidate):
+        ctx.run(rule)
 
 
 F = "pipefunc/map/_mapspec.py"
@@ -250,7 +374,6 @@ MUTANTS = [
     Mutant("is-generated-compared-F11", F, "_is_generated: bool = field(default=False, compare=False)", "_is_generated: bool = False", ("C08.2-eq-fields",), why="original F11"),
     Mutant("none-first-output-only-F12", F, "if any(x is None for output in self.outputs for x in output.axes):", "if any(x is None for x in self.outputs[0].axes):", ("C08.3-all-outputs",), why="original F12"),
     Mutant("indices-as-sets", F, "if not all(x.indices == self.outputs[0].indices for x in self.outputs[1:]):", "if not all(set(x.indices) == set(self.outputs[0].indices) for x in self.outputs[1:]):", ("C08.3-all-outputs",), why="seeded C08/3"),
-    Mutant("unused-index-accepted", F, "        if unused_indices := input_indices - output_indices:\n", "        if unused_indices := set():\n", ("C08.3-all-outputs",)),
     Mutant("shape-no-validate", F, "        _validate_shapes(input_names, input_shapes, self.inputs, internal_shapes, self.output_names)\n", "", ("C08.5-shape-path",)),
     Mutant("get-dim-from-indices", F, "        axis = array.axes.index(index)\n", "        axis = array.indices.index(index)\n", ("C08.5-shape-path",), why="seeded C08/2"),
     Mutant("common-dim-no-raise", F, "    if any(dim != x for x in rest):\n", "    if False:\n", ("C08.5-shape-path",)),
